@@ -25,10 +25,11 @@ ID = "C13"
 LEVEL = "exploration"
 RULE = ("seeded random cases: combinator (zip / combine_latest / with_latest_from / fork_join / amb), call form (factory, "
         "operator, for amb also a chain of binary operators), 1..4 probe sources (cold, hot, synchronous) with 0..4 "
-        "elements ending in C / E / never on a coarse time grid (simultaneous notifications frequent); non-trivial = at "
+        "elements ending in C / E / never on a coarse time grid (simultaneous notifications frequent), subscription with "
+        "scheduler=TestScheduler or without a scheduler argument; non-trivial = at "
         "least two sources notified; distinct = digest of (combinator, form, timelines)")
 ASSUMPTIONS = ["reactivex.testing.TestScheduler is the clock (checked by C28)", "probe sources are harness code (conforming)"]
-CASES = {"quick": 6000, "thorough": 120000}
+CASES = {"quick": 6000, "thorough": 360000}
 UNIT_TIMEOUT = {"quick": 300, "thorough": 3600}
 OPS = ["zip", "combine_latest", "with_latest_from", "fork_join", "amb"]
 REQUIRED = {"set:ops": len(OPS), "set:forms": 11, "tuples_compared": {"quick": 4000, "thorough": 80000},
@@ -65,7 +66,7 @@ def gen_case(r: Any, idx: int) -> dict:
             term = r.choice(["C", "C", "C", "E", None])
         srcs.append(gen_source(r, "s%d" % i, domain=domain, maxlen=4, term=term, uniq=uniq,
                                kinds=("cold", "cold", "cold", "hot", "hot", "sync"), hot_base=SUB_AT + r.choice([-5, 0, 0, 5, 10])))
-    return {"op": op, "form": form, "srcs": srcs, "domain": domain}
+    return {"op": op, "form": form, "srcs": srcs, "domain": domain, "scheduler_arg": r.random() < 0.7}
 
 
 def build(case: dict, L: list) -> Any:
@@ -307,7 +308,7 @@ def first_due(spec: dict) -> float | None:
 
 
 def describe(case: dict) -> dict:
-    return {"op": case["op"], "form": case["form"], "sources": [show_source(s) for s in case["srcs"]]}
+    return {"op": case["op"], "form": case["form"], "scheduler_arg": case["scheduler_arg"], "sources": [show_source(s) for s in case["srcs"]]}
 
 
 def run_case(seed: int, idx: int, res: UnitResult) -> None:
@@ -315,7 +316,7 @@ def run_case(seed: int, idx: int, res: UnitResult) -> None:
     case = gen_case(r, idx)
     lab = new_lab()
     L = [build_source(lab, s) for s in case["srcs"]]
-    top = run_pipeline(lab, lambda: build(case, L))
+    top = run_pipeline(lab, lambda: build(case, L), with_scheduler=case["scheduler_arg"])
     index = {s["name"]: i for i, s in enumerate(case["srcs"])}
     evs = emits(lab, index)
     out = MODELS[case["op"]](evs, len(L))
@@ -331,6 +332,8 @@ def run_case(seed: int, idx: int, res: UnitResult) -> None:
         if k not in ("winner", "first_seq"):
             res.count({"tuples": "tuples_compared", "errors": "error_terminations"}.get(k, k), v)
     res.count("outputs_compared", len(out.items))
+    if not case["scheduler_arg"]:
+        res.count("cases_subscribed_without_scheduler_argument")
     times: dict = {}
     for e in evs:
         times.setdefault(e[1], set()).add(e[2])
